@@ -140,6 +140,9 @@ WEAK_RE = re.compile(r"\.\s*(rev|find|any|all|map|filter|position|rposition|fold
 # here has a usable one)
 
 
+GUARD_RE = re.compile(r"[\)\w\]]\s+if\s+[^;{}]*?=>", re.S)
+
+
 def weak_profile(b):
     """per extracted function: how many calls of each under-specified std method its repo-origin lines contain"""
     lines = b.text.split("\n")
@@ -155,6 +158,14 @@ def weak_profile(b):
             code = lines[gl - 1].split("//")[0]
             for m in WEAK_RE.finditer(code):
                 cnt[m.group(1)] = cnt.get(m.group(1), 0) + 1
+        # match-arm guards (`PAT if COND =>`): this Verus loses everything it knows about a `&mut` parameter that a guard reads
+        # (observed: `match g { Some(p) if t.a == 5 => { t.b = 1 } _ => {} }` fails `final(t).a == old(t).a`) - a failing obligation
+        # in a function that has gained such a guard says nothing about the code
+        body_ = "\n".join(lines[gl - 1].split("//")[0] for gl in range(a, min(e, len(lines)) + 1)
+                          if (b.linemap[gl - 1] if gl - 1 < len(b.linemap) else ("gen", None, 0))[0] == "repo")
+        ng_ = len(GUARD_RE.findall(body_))
+        if ng_:
+            cnt["match_guard"] = cnt.get("match_guard", 0) + ng_
         old = prof.setdefault(name, {})
         for k_, v_ in cnt.items():
             old[k_] = old.get(k_, 0) + v_
